@@ -5,6 +5,9 @@ open Anemo Gen
 
 structure ManagerState where
   listener : Listener := { limit := none }
+  tcfg : TickCfg := { own := 0, cap := 0, step := 0, max := 0 }
+  tknown : List KnownPeer := []
+  tstate : TickState := {}
 
 def parseAff : String → Option Affinity
   | "high" => some .high | "allowed" => some .allowed | "never" => some .never | _ => none
@@ -35,6 +38,47 @@ def managerOp (st : ManagerState) (cmd : String) (args : List (String × String)
       let r := st.listener.step (if cmd == "listener.dial" then .dialOut p else .disconnect p)
       ({ st with listener := r.1 }, s!"count={r.1.connected.length}")
     | none => (st, "bad-op")
+  | "tick.reset" =>
+    match argNat args "own", argNat args "cap", argNat args "step", argNat args "max" with
+    | some o, some c, some s, some m => ({ st with tcfg := { own := o, cap := c, step := s, max := m }, tknown := [], tstate := {} }, "ok")
+    | _, _, _, _ => (st, "bad-op")
+  | "tick.known" =>
+    match argNat args "peer", arg args "aff" with
+    | some p, some "remove" => ({ st with tknown := st.tknown.filter (·.id ≠ p) }, "ok")
+    | some p, some a =>
+      match parseAff a, argNat args "naddr" with
+      | some aff, some n => ({ st with tknown := st.tknown.filter (·.id ≠ p) ++ [⟨p, aff, n⟩] }, "ok")
+      | _, _ => (st, "bad-op")
+    | _, _ => (st, "bad-op")
+  | "tick.backoff" =>
+    match argNat args "step", argNat args "max", argNat args "k" with
+    | some s, some m, some k =>
+      let b := (List.range k).foldl (fun (acc : Option Backoff) _ => some (Backoff.update 0 s m acc)) none
+      match b with
+      | some bb => (st, s!"delta={bb.until_} attempts={bb.attempts}")
+      | none => (st, "delta=0 attempts=0")
+    | _, _, _ => (st, "bad-op")
+  | "tick.run" =>
+    -- trace acceptance of one connectivity check: `observed` are the dials the implementation started
+    let nats := fun (s : String) => if s == "-" then some [] else (s.splitOn ",").mapM String.toNat?
+    let pairs := fun (s : String) (f : String → Option Nat) => if s == "-" then some [] else (s.splitOn ",").mapM (fun e =>
+      match e.splitOn ":" with
+      | [a, b] => do pure ((← a.toNat?), (← f b))
+      | _ => none)
+    match argNat args "now", (arg args "connected").bind nats, argNat args "pending",
+          (arg args "done").bind (pairs · (fun b => if b == "ok" then some 1 else if b == "fail" then some 0 else none)),
+          (arg args "observed").bind (pairs · String.toNat?) with
+    | some now, some conn, some pc, some done, some obs =>
+      let st1 := drain st.tcfg now st.tstate (done.map fun (p, b) => (p, b == 1))
+      let el := st.tknown.filter (eligible st.tcfg now conn st1)
+      let n := min el.length (st.tcfg.cap - pc)
+      let expected := el.map fun k => (k.id, addrIndex st1 k)
+      let okSubset := obs.all (fun o => expected.contains o) && (obs.map (·.1)).eraseDups.length == obs.length
+      let st2 : TickState := { st1 with pending := st1.pending ++ obs.map (·.1) }
+      let showL := fun (l : List (Nat × Nat)) => if l.isEmpty then "-" else ",".intercalate (l.map fun (a, b) => s!"{a}:{b}")
+      if okSubset && obs.length == n then ({ st with tstate := st2 }, "ok")
+      else ({ st with tstate := st2 }, s!"mismatch expected-{n}-of={showL expected}")
+    | _, _, _, _, _ => (st, "bad-op")
   | _ => (st, "bad-op")
 
 end Anemo.Driver
